@@ -231,6 +231,21 @@ def classify(check, info, case):
             return "polygon.containsRegion-ignores-height"
         if check == "intersects" and ka == "circle" and kb == "circle":
             return "circular.intersects-ignores-height"
+    nested = str(info.get("label", "")).startswith("[nested")
+    if info.get("mesh_ray") and rc in ("MeshVolumeRegion", "BoxRegion", "SpheroidRegion", "ViewRegion"):
+        return "meshvolume.containsPoint-sign-from-nearest-triangle-normal"
+    if check == "result.sample" and rc == "IntersectionRegion":
+        kinds_ = {ka, kb}
+        if info.get("has_sampler") and kinds_ & {"pointset", "grid"} and kinds_ & {"polygon", "rect"}:
+            return "pointset.intersection-sampler-ignores-height-of-planar-operand"
+        if nested and "grid" in kinds_:
+            return "grid.cell-membership-inconsistent-with-pointset-measure"
+        if nested and kinds_ & {"polygon", "rect", "circle", "sector"}:
+            return "intersection.nested-trueContainsPoint-falls-back-to-footprints"
+    if check == "intersects" and info.get("obs") is True and {ka, kb} & {"pointset", "grid"} and {ka, kb} & {"polygon", "rect"}:
+        return "pointset.intersects-ignores-height-of-planar-operand"
+    if check == "containsRegion" and info.get("obs") is True and za_ not in (None, 0) and kb == "polyline":
+        return "polygon.containsRegion-ignores-height"
     if "polyline" in (ka, kb) and any(planar_nz) and ka != kb:
         if check == "intersects" and info.get("obs") is True:
             return "polygon-polyline.intersects-ignores-height"
@@ -360,6 +375,14 @@ def _comb(op, a, b):
 def expected_height(op, A, B):
     """height at which a planar result must sit, or None when the result is not (known to be) planar"""
     za, zb = A.planar_z, B.planar_z
+    if B.kind == "empty" and op in ("or", "sub"):
+        return za
+    if A.kind == "empty" and op == "or":
+        return zb
+    if B.kind == "all" and op == "and":
+        return za
+    if A.kind == "all" and op == "and":
+        return zb
     if op == "and":
         if za is not None and zb is not None:
             return za if za == zb else None
@@ -672,7 +695,7 @@ def check_result(mon, R, op, A, B, P, mA, mB, fA, fB, dA, dB, rng, label="", var
             mon.report(
                 "result.contains",
                 f"A.{opn}(B) -> {rc}.containsPoint{fmt(p)} = {obs} but point is {'in' if mA[i] == 1 else 'not in'} A and {'in' if mB[i] == 1 else 'not in'} B; A={_short(A)} B={_short(B)}",
-                dict(info0, obs=obs, alt_key=explain_point(mon, op, A, B, p, obs, True)),
+                dict(info0, obs=obs, alt_key=explain_point(mon, op, A, B, p, obs, True), mesh_ray=_mesh_ray_probe(R, p, obs)),
             )
         # full-3D membership of planar results ("could this point be produced")
         if rc == "PolygonalRegion" and e3 != -1:
@@ -730,7 +753,15 @@ def check_result(mon, R, op, A, B, P, mA, mB, fA, fB, dA, dB, rng, label="", var
         elif op == "or" and ba is not None and bbb is not None:
             outer = (np.minimum(ba[0], bbb[0]), np.maximum(ba[1], bbb[1]))
             if np.abs(lo - outer[0]).max() > tol or np.abs(hi - outer[1]).max() > tol:
-                mon.report("result.aabb", f"A.union(B) -> {rc}.AABB = {fmt(lo)}..{fmt(hi)}, exact is {fmt(outer[0])}..{fmt(outer[1])}", info0)
+                ak = None
+                for key, which, alt in getattr(mon, "alts", ()):
+                    if key == SECTOR_TRUNC and which in ("A", "B"):
+                        a2 = alt.aabb() if which == "A" else ba
+                        b2 = alt.aabb() if which == "B" else bbb
+                        o2 = (np.minimum(a2[0], b2[0]), np.maximum(a2[1], b2[1]))
+                        if np.abs(lo[:2] - o2[0][:2]).max() <= tol and np.abs(hi[:2] - o2[1][:2]).max() <= tol:
+                            ak = key
+                mon.report("result.aabb", f"A.union(B) -> {rc}.AABB = {fmt(lo)}..{fmt(hi)}, exact is {fmt(outer[0])}..{fmt(outer[1])}; A={_short(A)} B={_short(B)}", dict(info0, alt_key=ak))
         if outer is not None and ((lo < outer[0] - tol).any() or (hi > outer[1] + tol).any()):
             mon.report("result.aabb", f"A.{opn}(B) -> {rc}.AABB = {fmt(lo)}..{fmt(hi)} exceeds the bound {fmt(outer[0])}..{fmt(outer[1])} implied by the operands; A={_short(A)} B={_short(B)}", info0)
     elif k == "error":
@@ -755,7 +786,7 @@ def check_result(mon, R, op, A, B, P, mA, mB, fA, fB, dA, dB, rng, label="", var
         bad = np.where(em == 0)[0]
         if len(bad):
             p = pts[bad[0]]
-            mon.report("result.sample", f"A.{opn}(B) -> {rc} produced the sample {fmt(p)} which is not in the expected set (in A: {int(A.member(p[None])[0])}, in B: {int(B.member(p[None])[0])}); A={_short(A)} B={_short(B)}", dict(info0, alt_key=explain_point(mon, op, A, B, p, True)))
+            mon.report("result.sample", f"A.{opn}(B) -> {rc} produced the sample {fmt(p)} which is not in the expected set (in A: {int(A.member(p[None])[0])}, in B: {int(B.member(p[None])[0])}); A={_short(A)} B={_short(B)}", dict(info0, alt_key=explain_point(mon, op, A, B, p, True), has_sampler=getattr(R, "sampler", None) is not None))
     # size of the result where the oracle can compute it exactly (same-plane polygons)
     k, sz = outcome(lambda: R.size)
     if k == "ok" and sz is not None and hasattr(A, "poly") and hasattr(B, "poly") and rc == "PolygonalRegion":
@@ -766,6 +797,16 @@ def check_result(mon, R, op, A, B, P, mA, mB, fA, fB, dA, dB, rng, label="", var
             if abs(g.area - sz) > 4e-3 * max(1.0, A.poly.area, B.poly.area) and not any(X.kind == "sector" and X.params["angle"] > 2.09 for X in (A, B)):
                 mon.report("result.size", f"A.{opn}(B) -> {rc}.size = {sz:.6g}, exact area {g.area:.6g}; A={_short(A)} B={_short(B)}", info0)
     return True
+
+
+def _mesh_ray_probe(R, p, obs):
+    """mechanism probe: the mesh's own ray-casting containment contradicts the distance-based containsPoint"""
+    try:
+        if hasattr(R, "mesh") and hasattr(R, "_containsPointExact"):
+            return bool(R.mesh.contains([np.asarray(p, float)])[0]) != bool(obs)
+    except Exception:
+        pass
+    return False
 
 
 def dist_probe(mon, R, rc, op, A, B, p, d, tol):
